@@ -144,5 +144,47 @@ def replay(prop, path):
       if len(ld.deque) > case["cap"]:
         bad.append("Bound")
     return _verdict(prop, path, bad, "deque=%s tokens=%s" % (list(ld.deque), ld.locking_queue.qsize()))
+  if prop == "C29" and "ops" in case:
+    from harness import tsadrive
+    AUG = {("x", "x"): 0, ("x", "y"): 1, ("y", "x"): 2, ("y", "y"): 3}
+    mod = tsadrive.load_statements(["a.x += b.x", "a.x += b.y", "a.y += b.x", "a.y += b.y"])
+    insts, ops = {}, []
+    for o in case["ops"]:
+      try:
+        if o[0] == "new":
+          insts[o[1]] = getattr(mod, o[2])()
+          ops.append(["new", o[1], o[2], "", 0, "ok"])
+        elif o[0] == "set":
+          setattr(insts[o[1]], o[3], o[4])
+          ops.append(["set", o[1], o[2], o[3], o[4], "ok"])
+        elif o[0] == "get":
+          ops.append(["get", o[1], o[2], o[3], getattr(insts[o[1]], o[3]), "ok"])
+        elif o[0] == "aug":
+          getattr(mod, "stmt_%d" % AUG[(o[3], o[7])])(insts[o[1]], insts[o[6]], 0, 0)
+          ops.append(["aug", o[1], o[2], o[3], getattr(insts[o[1]], o[3]), "ok", o[6], o[7]])
+      except Exception as ex:  # noqa
+        ops.append(list(o[:5]) + ["raised:" + type(ex).__name__] + list(o[6:]))
+    v, _ = util.trace_validate("TSATrace", [{"tid": 0, "kind": "c29", "ops": ops}])
+    return _verdict(prop, path, v[0].get("bad"), json.dumps(ops)[:600])
+  if prop == "C28" and "sequence" in case:
+    from harness import tsadrive
+    forms = tsadrive.c28_statements()
+    srcs = [s for _, s in forms]
+    mod = tsadrive.load_statements(srcs)
+    a, b = mod.Obj(), mod.Obj()
+    a.x, a.y, b.x = 2, 3, 1
+    bad = []
+    for r in case["sequence"]:
+      try:
+        getattr(mod, "stmt_%d" % srcs.index(r[1]))(a, b, r[3], r[2])
+      except ZeroDivisionError:
+        continue
+      except Exception as ex:  # noqa
+        bad.append("Raised:%s:%s" % (r[1], type(ex).__name__))
+      cx, cy = tsadrive.lock_state(tsadrive.lock_of(mod, "Obj", "x"))[0], tsadrive.lock_state(tsadrive.lock_of(mod, "Obj", "y"))[0]
+      if cx or cy:
+        bad.append("LockHeld:%s" % r[1])
+        break
+    return _verdict(prop, path, bad)
   print("no replayer for this kind of case (keys: %s): re-run `./check %s` to regenerate it" % (sorted(case), prop))
   return 2
